@@ -281,6 +281,8 @@ func runCase(c *wk.Ctx, i int, p planT) {
 			return "notfound"
 		case err == leveldb.ErrClosed:
 			return "closed"
+		case err == leveldb.ErrReadOnly:
+			return "readonly"
 		case strings.Contains(err.Error(), "injected"):
 			return "injected-error"
 		default:
@@ -315,7 +317,7 @@ func runCase(c *wk.Ctx, i int, p planT) {
 		cl.end()
 		cls := classify(err)
 		cnt("call:" + api + ":" + cls)
-		if cls == "closed" {
+		if cls == "closed" || cls == "readonly" {
 			time.Sleep(200 * time.Microsecond) // do not spin on a closed DB
 		}
 		return err
@@ -425,7 +427,7 @@ func runCase(c *wk.Ctx, i int, p planT) {
 		}
 		return nil, nil
 	}
-	hung := false
+	hung, resolved := false, false
 	judge := func(cl *client, cc *call, when string) {
 		// disarm faults first: a retry loop against an armed fault is not a hang
 		st.ClearFaults()
@@ -433,6 +435,7 @@ func runCase(c *wk.Ctx, i int, p planT) {
 		time.Sleep(4 * time.Second) // longer than the 1 s x 3 commit retry timers
 		if c2, _ := cl.cur.Load().(*call); c2 == nil || c2.since != cc.since {
 			c.Count("watchdog_firings_resolved_by_themselves", 1)
+			resolved = true // the clients were sent home above: the case ends here, without a verdict
 			return
 		}
 		v := hang.Inspect(cc.gid, 3*time.Second, activity)
@@ -470,7 +473,7 @@ func runCase(c *wk.Ctx, i int, p planT) {
 			}
 			if cl, cc := stuck(); cl != nil {
 				judge(cl, cc, when)
-				if hung {
+				if hung || resolved {
 					return false
 				}
 			}
@@ -490,6 +493,26 @@ func runCase(c *wk.Ctx, i int, p planT) {
 		flt = st.AddFault(vstor.Fault{Kind: p.kind, Type: p.typ, Nth: 1 + r.Intn(3), Count: p.count, Short: p.short})
 		target = totalCalls() + int64(100+r.Intn(600))
 		ok = waitFor(func() bool { return totalCalls() >= target }, "with the fault armed")
+	}
+	if ok && r.Intn(4) == 0 {
+		closer.begin("SetReadOnly", 0)
+		rdone := make(chan error, 1)
+		go func() {
+			closer.cur.Store(&call{api: "SetReadOnly", gid: hang.GoID(), since: time.Now().UnixNano()})
+			rdone <- db.SetReadOnly()
+		}()
+		returned := false
+		ok = waitFor(func() bool {
+			select {
+			case err := <-rdone:
+				returned = true
+				closer.end()
+				cnt("call:SetReadOnly:" + classify(err))
+			default:
+			}
+			return returned
+		}, "SetReadOnly while busy")
+		c.Count("set_read_only_while_busy", 1)
 	}
 	if ok && closeBusy {
 		// Close while everything is busy (and possibly while the fault is still armed);
